@@ -447,6 +447,92 @@ message UsesAll { Fine fine = 1; Inner inner = 2; Side side = 3; }
 		}
 	})
 
+	// --- recursion hazards as decode roots: self- and mutually flattening types, declared at top level and nested ---------
+	// (the guards of the schema builder compare type names: a nested message has two spellings, Outer.Node and Outer_Node)
+	flat := "[(j5.ext.v1.field).message.flatten = true]"
+	hazards := map[string]string{
+		"self-flatten-top":           "message A { A next = 1 " + flat + "; string x = 2; }",
+		"self-flatten-nested":        "message Outer { message Node { Node next = 1 " + flat + "; string x = 2; } Node node = 1; string x = 2; }",
+		"self-flatten-nested-deep":   "message Outer { message Mid { message Node { Node next = 1 " + flat + "; string x = 2; } Node node = 1; } Mid mid = 1; }",
+		"self-flatten-nested-unused": "message Outer { message Node { Node next = 1 " + flat + "; string x = 2; } string x = 1; }",
+		"mutual-flatten-nested":      "message Outer { message A { B b = 1 " + flat + "; } message B { A a = 1 " + flat + "; string x = 2; } A a = 1; }",
+		"mutual-flatten-nested-top":  "message Top { message In { Top t = 1 " + flat + "; string x = 2; } In in = 1 " + flat + "; }",
+		"plain-then-flatten-mutual":  "message A { B b = 1; B b2 = 2 " + flat + "; }\nmessage B { A a = 1 " + flat + "; string x = 2; }",
+		"plain-then-flatten-nested":  "message Outer { message A { B b = 1; B b2 = 2 " + flat + "; } message B { A a = 1 " + flat + "; string x = 2; } A a = 1; }",
+		"flatten-three-cycle-nested": "message Outer { message A { B b = 1 " + flat + "; } message B { C c = 1 " + flat + "; } message C { A a = 1 " + flat + "; string x = 2; } }",
+		"sibling-same-short-name":    "message P { message Node { Node next = 1 " + flat + "; string x = 2; } }\nmessage Q { message Node { string x = 1; P.Node other = 2; } Node node = 1; }",
+		"underscore-twin":            "message Outer { message Node { Outer_Node twin = 1 " + flat + "; string x = 2; } }\nmessage Outer_Node { Outer.Node back = 1 " + flat + "; string y = 2; }",
+		"plain-recursion-nested":     "message Outer { message Node { Node next = 1; repeated Node kids = 2; map<string, Node> by = 3; string x = 4; } Node node = 1; }",
+		"flatten-acyclic-nested":     "message Outer { message Inner { string x = 1; } message Node { Inner inner = 1 " + flat + "; Node next = 2; } Node node = 1 " + flat + "; }",
+		"wrapper-recursion-nested":   "message Outer { message W { option (j5.ext.v1.message).oneof = {}; oneof type { W w = 1; Outer o = 2; string x = 3; } } W w = 1 " + flat + "; }",
+	}
+	var allMsgs func(ms protoreflect.MessageDescriptors, out *[]protoreflect.MessageDescriptor)
+	allMsgs = func(ms protoreflect.MessageDescriptors, out *[]protoreflect.MessageDescriptor) {
+		for i := 0; i < ms.Len(); i++ {
+			if ms.Get(i).IsMapEntry() {
+				continue
+			}
+			*out = append(*out, ms.Get(i))
+			allMsgs(ms.Get(i).Messages(), out)
+		}
+	}
+	hazardDocs := []string{"{}", `{"x":"1"}`, `{"next":{"x":"1"}}`, `{"node":{"x":"1"}}`, `{"a":{"x":"1"},"b":{"x":"1"}}`, `{"zz":1}`}
+	for _, name := range rt.SortedKeys(hazards) {
+		decls := hazards[name]
+		path := "verif/hazard/v1/hazard.proto"
+		src := map[string]string{path: fmt.Sprintf(arbHeader, "verif.hazard.v1") + decls + "\n"}
+		use := func(c *rt.C, env *codecEnv, md protoreflect.MessageDescriptor) {
+			for _, doc := range hazardDocs {
+				c06Decode(c, env, md, []byte(doc), "recursion-hazard-root")
+			}
+			c06Query(c, env, md, url.Values{}, "recursion-hazard-root-query")
+			c06Query(c, env, md, url.Values{"x": {"1"}}, "recursion-hazard-root-query")
+			m := dynamicpb.NewMessage(md)
+			var err error
+			ok, pv, fn, st := rt.Guard(func() { _, err = env.codec.ProtoToJSON(m) })
+			_ = err
+			if !ok {
+				c.Violate("encode-panic/"+fn, fmt.Sprintf("ProtoToJSON panicked on an empty %s: %v", md.FullName(), pv), map[string]any{"type": string(md.FullName()), "stack": st, "proto_sources": env.ct.Sources})
+			}
+		}
+		// how many roots there are is only known after compiling; compile once here to enumerate them
+		ct0, err := compileProtoText(src)
+		if err != nil {
+			panic("harness: hazard proto " + name + " does not compile: " + err.Error())
+		}
+		fd0, _ := ct0.Files.FindFileByPath(path)
+		var roots []protoreflect.MessageDescriptor
+		allMsgs(fd0.Messages(), &roots)
+		for _, root := range roots {
+			full := string(root.FullName())
+			// each root first on a codec of its own: what the guard sees depends on which type the cache is asked for first
+			r.Do("hazard/"+name+"/"+full, func(c *rt.C) {
+				ct, err := compileProtoText(src)
+				if err != nil {
+					panic("harness: " + err.Error())
+				}
+				env := &codecEnv{name: "hazard", ct: ct, codec: j5codec.NewCodec(j5codec.WithResolver(ct.Types), j5codec.WithProtoToAny())}
+				use(c, env, ct.message(full))
+				use(c, env, ct.message(full))
+				c.Feature("c06:hazard-root:" + name)
+			})
+		}
+		r.Do("hazard/"+name+"/shared", func(c *rt.C) {
+			ct, err := compileProtoText(src)
+			if err != nil {
+				panic("harness: " + err.Error())
+			}
+			rng := c.Rand()
+			for trial := 0; trial < 6; trial++ {
+				env := &codecEnv{name: "hazard", ct: ct, codec: j5codec.NewCodec(j5codec.WithResolver(ct.Types), j5codec.WithProtoToAny())}
+				order := rng.Perm(len(roots))
+				for _, i := range append(order, order...) {
+					use(c, env, ct.message(string(roots[i].FullName())))
+				}
+			}
+		})
+	}
+
 	// --- shape-free hostile inputs for every type ------------------------------------------------------
 	r.Do("sink/hostile", func(c *rt.C) {
 		env := sinkEnv()
